@@ -92,10 +92,14 @@ func c08Run(c c08Case) []*core.Violation {
 		m.SetGenHeaderPreformatted("X-Multi-Line", "first line\r\n second line\r\n\tthird line")
 	}
 	chain := signingChainIssuer(c.Key, c.Intermediate, c.Issuer)
-	if c.Via == "tlscert" {
+	if c.Via == "tlscert" || c.Via == "tlscert-fullchain" {
 		tc := &tls.Certificate{Certificate: [][]byte{chain.Leaf.Raw}, PrivateKey: chain.Key, Leaf: chain.Leaf}
 		if chain.Intermediate != nil {
 			tc.Certificate = append(tc.Certificate, chain.Intermediate.Raw)
+			if c.Via == "tlscert-fullchain" {
+				// a "fullchain" key pair: leaf, issuing CA, root - the issuing CA is the intermediate
+				tc.Certificate = append(tc.Certificate, chain.Root.Raw)
+			}
 		}
 		err = m.SignWithTLSCertificate(tc)
 	} else {
@@ -205,7 +209,7 @@ func c08Run(c c08Case) []*core.Violation {
 			}
 		}
 	}
-	feat := fmt.Sprintf("%v/%s/%v/%v/%s/%v", c.EmptyHeader, c.EmptyIgnore, c.MultiLinePre, c.FailFirst > 0, c.Issuer, c.AddAltBetween)
+	feat := fmt.Sprintf("%v/%s/%v/%v/%s/%v/%s", c.EmptyHeader, c.EmptyIgnore, c.MultiLinePre, c.FailFirst > 0, c.Issuer, c.AddAltBetween, c.Spec.Middleware)
 	rec.NonTrivial(core.Join(spec.ShapeKey(), c.Key, c.Intermediate, c.Via, feat))
 	rec.Sample(fmt.Sprintf("%s/%d", c.Key, np+ne+na), map[string]interface{}{"shape": spec.ShapeKey(), "key": c.Key, "intermediate": c.Intermediate, "via": c.Via, "features": feat})
 	rec.Class("key:" + c.Key)
@@ -277,7 +281,15 @@ func c08Gen(t *rapid.T) c08Case {
 	c := c08Case{Spec: *spec}
 	c.Key = rapid.SampledFrom([]string{"ecdsa", "ecdsa", "ecdsa", "rsa"}).Draw(t, "key")
 	c.Intermediate = rapid.Bool().Draw(t, "intermediate")
-	c.Via = rapid.SampledFrom([]string{"keypair", "tlscert"}).Draw(t, "via")
+	c.Via = rapid.SampledFrom([]string{"keypair", "tlscert", "tlscert-fullchain"}).Draw(t, "via")
+	if c.Via == "tlscert-fullchain" && !c.Intermediate {
+		c.Via = "tlscert"
+	}
+	// a middleware that rewrites the first body part (or only the subject) on every render: what is
+	// signed is what is emitted
+	if len(c.Spec.Parts) > 0 && rapid.IntRange(0, 4).Draw(t, "middleware") == 0 {
+		c.Spec.Middleware = rapid.SampledFrom([]string{"body", "body", "subject"}).Draw(t, "mwkind")
+	}
 	c.EmptyHeader = rapid.IntRange(0, 3).Draw(t, "emptyheader") == 0
 	c.EmptyIgnore = rapid.SampledFrom([]string{"", "", "", "to", "cc"}).Draw(t, "emptyignore")
 	if c.EmptyIgnore == "to" {
@@ -297,7 +309,7 @@ func c08Gen(t *rapid.T) c08Case {
 
 func TestC08(t *testing.T) {
 	rec := core.Rec("C08")
-	rec.Rule = "rapid draws message programs (0..3 parts, 0..2 embeds, 0..2 attachments in every combination incl. body-less and file-only messages; QP/base64/8bit per message, part and file; part and file descriptions incl. long ones; long file names; generic headers incl. long and non-ASCII values, a generic header without values, preformatted and multi-line preformatted headers, To/Cc *IgnoreInvalid lists that end up empty; contents in canonical CRLF form; chunked producers), signs them with an ECDSA P-256 or RSA-2048 key whose certificate was issued by a P-256, P-384 or P-521 CA (SHA-256/384/512 on the certificate), with or without an intermediate certificate, through SignWithKeypair or SignWithTLSCertificate, and renders each message twice (one case in four after a first render into a sink that fails at a drawn offset; one in four with an alternative part added between the two renders). " +
+	rec.Rule = "rapid draws message programs (0..3 parts, 0..2 embeds, 0..2 attachments in every combination incl. body-less and file-only messages; QP/base64/8bit per message, part and file; part and file descriptions incl. long ones; long file names; generic headers incl. long and non-ASCII values, a generic header without values, preformatted and multi-line preformatted headers, To/Cc *IgnoreInvalid lists that end up empty; contents in canonical CRLF form; chunked producers), signs them with an ECDSA P-256 or RSA-2048 key whose certificate was issued by a P-256, P-384 or P-521 CA (SHA-256/384/512 on the certificate), with or without an intermediate certificate, through SignWithKeypair or SignWithTLSCertificate (also with a full chain leaf + issuing CA + root, of which the issuing CA is the intermediate to carry), optionally with a middleware that rewrites the first body part or the subject on every render, and renders each message twice (one case in four after a first render into a sink that fails at a drawn offset; one in four with an alternative part added between the two renders). " +
 		"Oracle (own MIME reader + own CMS SignedData verifier on encoding/asn1 and crypto/*): top level multipart/signed with protocol=application/pkcs7-signature and micalg=sha-256 and exactly two parts; SHA-256 of the first part exactly as emitted between the delimiters == the message-digest attribute; signed attributes in DER SET order with content-type id-data; signature valid under the carried signer certificate, which is the one given; intermediate carried iff given; the signed entity's leaves match the model; the second render verifies too and carries the same signed entity. " +
 		"TestC08Conc: 2..8 goroutines each build, sign (one shared *tls.Certificate through SignWithTLSCertificate, or the shared key pair) and render 2..12 fresh messages at the same time (12 such cases per process in quick, 150 in thorough); every output must be a verifying multipart/signed message of its own content. Non-trivial: every case (each exercises the double render). Distinct by (shape key, key type, intermediate, API, header features)."
 	rec.Assumptions = []string{"contents are generated in canonical CRLF form (the property's domain)", "certificate chain validation up to a trust anchor is not part of the property"}
